@@ -35,6 +35,10 @@ CHECKS = {
                 text="Proved from the real source: val.Sum.type_ reports its sum type; each helper (Tuple, Some, None_, Left, Right, UnitSum, bool_value) builds the stated sum type with the right tag and satisfies the inhabitation predicate transcribed from Const::validate (tag in range, field count, field i reports exactly the type in the tagged row); Extension.type_; IntVal / FloatVal / StringVal / ArrayVal / ListVal / StaticArrayVal report the matching standard type (int of the given width, array sized by the number of elements, ...), name their defining extension and embed elements as complete values with the element type; Const offers val.type_() on its static port and LoadConst is typed consistently (shared with C06). val.Function.type_ and DfBase.load are covered by the bounded run only -> category other.",
                 note=TRUST + "; interface contracts Value.type_ / _to_serial_root; _load_extension trusted with ground-checked facts; invertible Any injection.",
                 technique="contract-based deductive verification (constructor postconditions + inhabitation predicate), z3 cross-checked; bounded value-expression enumeration against an independent oracle"),
+    "C17": dict(cat="other", design="5/C17",
+                text="Under the assumed contract of pydantic (validation by a model == validation against the schema generated from that model) the property 'for all documents: accepted by the Python decoder iff accepted by the published schema' reduces to a closed ground statement: the four schema documents generated by the repository's own scripts/generate_schema.py from the current models (strict/lax x HUGR/testing, each bundling extension and package) equal the published files as JSON values after a stated normal form (key order; additionalProperties:true == absent), and the version string of the models equals the one in the file names. That statement is decided by evaluation on every run; any difference is reported with its JSON pointer. No code contract is involved, hence category other.",
+                note="pydantic's model<->schema correspondence assumed; normal-form rules listed in the evidence; generation runs the real script against the working tree's models.",
+                technique="ground decision of a closed equality (generated vs published schema after normal form); contract reduction through pydantic's assumed model/schema correspondence"),
     "C04": dict(cat="other", design="5/C04",
                 text="The graph store is verified against a sequence-per-port view: sub-offset allocation, add_link (the link is appended exactly once to the sequences of both ports; BiMap inverse and contiguity invariants preserved; counts = max), add_order_link (idempotent; order ports are not counted), linked_ports / has_link / order-link listings / outgoing_links / incoming_links as functions of the view (one entry per port whatever the rest of the graph holds), lookup (KeyError exactly for non-live indices), iteration (live indices ascending), counts, children, add_node / add_const (new index was free, every other node keeps index and data), _update_port_count. delete_link, delete_node and insert_hugr are decided by a bounded model-based run of the real code against the sequential multigraph model of the statement (all queries compared after every operation) - not proved; hence category other. Three genuine defects were found and repaired.",
                 note=TRUST + "; BiMap through its C18 contracts; ghost cnt defined by an assumed instance; generator functions eager; _add_node verified in the thorough tier only.",
